@@ -71,6 +71,7 @@ enum Tpl {
     T_E_EMPTY_ARRAY,    // reads from zero-length arrays
     T_E_SHARED_QUBIT,   // two objects hold the same qubit in a field and both are destroyed
     T_E_SIBLING,        // a base-typed variable re-assigned to a sibling subclass, then a virtual call
+    T_E_STATIC_QOWNER,  // a qubit-owning object is still referenced from a static field when the run ends
     T_E_RECURSE,        // bounded recursion holding an object (with destructor) per frame, optionally failing at the bottom
     T_COUNT
 };
@@ -80,7 +81,7 @@ inline const char* tplName(int t) {
                               "static_assign", "loop_alloc", "destroy", "cycle_drop", "virtual", "box", "ret_while_dtor", "churn", "churn_d",
                               "self_cycle_live", "show_all", "static_cycle", "drop_var", "keep_chain", "diamond_generic", "method_churn",
                               "e_div0", "e_mod0", "e_longmin_mod", "e_index", "e_null_field", "e_null_call", "e_deep", "e_voverload", "e_ctor_err",
-                              "e_fieldinit_err", "e_int_extreme", "e_literal_range", "e_cast", "e_neg_array", "e_destroy_twice", "e_super_call", "e_dtor_err", "qubit_owner_in_garbage_cycle", "e_generic_static", "derived_without_own_reference_fields", "e_declared_before_base", "e_destructor_stores_this", "e_generic_base_declared_later", "e_long_chain", "qubit_owner_as_pending_argument", "e_empty_array", "e_two_owners_of_one_qubit", "e_sibling_reassigned", "e_recurse"};
+                              "e_fieldinit_err", "e_int_extreme", "e_literal_range", "e_cast", "e_neg_array", "e_destroy_twice", "e_super_call", "e_dtor_err", "qubit_owner_in_garbage_cycle", "e_generic_static", "derived_without_own_reference_fields", "e_declared_before_base", "e_destructor_stores_this", "e_generic_base_declared_later", "e_long_chain", "qubit_owner_as_pending_argument", "e_empty_array", "e_two_owners_of_one_qubit", "e_sibling_reassigned", "e_qubit_owner_left_in_static", "e_recurse"};
     return (t >= 0 && t < T_COUNT) ? n[t] : "?";
 }
 
@@ -231,6 +232,8 @@ inline std::string preamble(const Plan& p) {
             "class OgG<T> extends OgA { public int g = 2; public constructor() -> OgG<T> { super(); return this; } }\n"
             "class OgA { public int a = 1; public int a2 = 10; public int a3 = 20; public constructor() -> OgA { return this; } }\n"
             "class LN { public int v; public LN next; public constructor(int v, LN n) -> LN { this.v = v; this.next = n; return this; } }\n"
+            "class LND { public int v; public LND next; public constructor(int v, LND n) -> LND { this.v = v; this.next = n; return this; } public destructor() -> void { ZK.seen = ZK.seen + 1; } }\n"
+            "static class ZQ { public static QW kept = null; }\n"
             "class QH { public qubit target; public int id; public constructor(qubit t, int id) -> QH { this.target = t; this.id = id; return this; } public destructor() -> void { echo(\"~QH \" + this.id); } }\n"
             "class Shp { public constructor() -> Shp = default; public virtual function area() -> int { return 0; } }\n"
             "class Rct extends Shp { public int w; public int h; public constructor(int w, int h) -> Rct { super(); this.w = w; this.h = h; return this; } public override function area() -> int { return w * h; } }\n"
@@ -346,6 +349,7 @@ inline std::string renderStmt(const Plan& p, const Stmt& st, int index) {
         case T_E_GENERIC_BASE_ORDER: return "    OgD og" + I(index) + " = new OgD();\n    echo(og" + I(index) + ".all());\n    echo(og" + I(index) + ".a2);\n";
         case T_E_LONG_CHAIN: {
             std::string v = "ln" + I(index);
+            if (st.b % 2) return "    LND " + v + " = null;\n    for (int li" + I(index) + " = 0; li" + I(index) + " < " + I(12000 + 500 * (st.a % 5)) + "; li" + I(index) + " = li" + I(index) + " + 1) { " + v + " = new LND(li" + I(index) + ", " + v + "); }\n    echo(" + v + ".v);\n    " + v + " = null;\n    echo(ZK.seen);\n";
             return "    LN " + v + " = null;\n    for (int li" + I(index) + " = 0; li" + I(index) + " < " + I(9000 + 500 * (st.a % 5)) + "; li" + I(index) + " = li" + I(index) + " + 1) { " + v + " = new LN(li" + I(index) + ", " + v + "); }\n    echo(" + v + ".v);\n    " + v + " = null;\n    echo(\"chain dropped\");\n";
         }
         case T_QTEMP: return st.b % 2 ? "    echo(passQ(new QW(mk(" + I(id) + ")), F.churn(" + I(k) + ")));\n" : "    echo(passQ2(F.churnD(" + I(k) + "), new QW(mk(" + I(id) + "))));\n";
@@ -357,6 +361,7 @@ inline std::string renderStmt(const Plan& p, const Stmt& st, int index) {
         }
         case T_E_SHARED_QUBIT: return "    { qubit sq" + I(index) + "; QH ha" + I(index) + " = new QH(sq" + I(index) + ", " + I(id) + "); QH hb" + I(index) + " = new QH(sq" + I(index) + ", " + I(id + 1) + "); echo(ha" + I(index) + ".id + hb" + I(index) + ".id); }\n    echo(\"owners gone\");\n";
         case T_E_SIBLING: return "    Shp sh" + I(index) + " = new Rct(2, " + I(2 + st.a % 3) + ");\n    echo(sh" + I(index) + ".area());\n    sh" + I(index) + " = new Dt();\n    echo(sh" + I(index) + ".area());\n";
+        case T_E_STATIC_QOWNER: return "    ZQ.kept = new QW(mk(" + I(id) + "));\n    echo(ZQ.kept.held.id);\n";
         case T_E_RECURSE: return "    echo(rec(" + I(3 + (st.a % 12) * 4) + ", " + I(st.b % 3 == 0 ? 1 : 0) + "));\n";
         case T_E_GENERIC_STATIC: {
             std::string ty = st.a % 2 ? "string" : "int";
@@ -409,7 +414,7 @@ inline Plan generate(sim::Rng& g, bool edge, bool allowDtorErr, bool allowQcycle
                                  T_LOOP_ALLOC, T_DESTROY, T_CYCLE_DROP, T_VIRTUAL, T_BOX, T_RET_WHILE_DTOR, T_CHURN, T_CHURN_D, T_SELF_CYCLE_LIVE, T_SHOW_ALL,
                                  T_STATIC_CYCLE, T_DROP_VAR, T_KEEP_CHAIN, T_DIAMOND_GENERIC, T_METHOD_CHURN, T_DERIVED_LEAF, T_QTEMP};
     static const int edgeTpls[] = {T_E_DIV0, T_E_MOD0, T_E_LONGMIN_MOD, T_E_INDEX, T_E_NULL_FIELD, T_E_NULL_CALL, T_E_DEEP, T_E_VOVERLOAD, T_E_CTOR_ERR, T_E_FIELDINIT_ERR,
-                                   T_E_INT_EXTREME, T_E_LITERAL_RANGE, T_E_CAST, T_E_NEG_ARRAY, T_E_DESTROY_TWICE, T_E_SUPER_CALL, T_E_GENERIC_STATIC, T_E_RECURSE, T_E_DECL_ORDER, T_E_RESURRECT, T_E_GENERIC_BASE_ORDER, T_E_EMPTY_ARRAY, T_E_SHARED_QUBIT, T_E_SIBLING};
+                                   T_E_INT_EXTREME, T_E_LITERAL_RANGE, T_E_CAST, T_E_NEG_ARRAY, T_E_DESTROY_TWICE, T_E_SUPER_CALL, T_E_GENERIC_STATIC, T_E_RECURSE, T_E_DECL_ORDER, T_E_RESURRECT, T_E_GENERIC_BASE_ORDER, T_E_EMPTY_ARRAY, T_E_SHARED_QUBIT, T_E_SIBLING, T_E_STATIC_QOWNER};
     double edgeShare = edge ? 0.35 : 0.0;
     for (int i = 0; i < n; ++i) {
         Stmt st;
@@ -435,6 +440,7 @@ inline Plan generate(sim::Rng& g, bool edge, bool allowDtorErr, bool allowQcycle
         Stmt st;
         st.tpl = T_E_LONG_CHAIN;
         st.a = (int)g.below(12);
+        st.b = (int)g.below(12);
         p.main.insert(p.main.begin() + (long)g.below(p.main.size() + 1), st);
     }
     if (allowDtorErr && g.chance(0.5)) {
